@@ -88,6 +88,7 @@ class Runner:
         if not (0 <= recv < len(U.objs)) or U.objs[recv] is None:
             return {"kind": "skip", "why": "receiver %r not live" % recv}
         ro = U.objs[recv]
+        U.visible[recv] = True          # whoever calls a method on it holds it (e.g. a Joiner's .query taken by the user)
         row = self.tab.get(qual(ro))
         m = row["methods"].get(mname) if row else None
         if m is None:
